@@ -165,9 +165,9 @@ def r11_5(run, model):
 
 
 def run(run, model):
-    r11_1(run, model)
-    r11_2(run, model)
-    r11_3(run, model)
-    r11_4(run, model)
-    r11_5(run, model)
+    run.try_rule(r11_1, model)
+    run.try_rule(r11_2, model)
+    run.try_rule(r11_3, model)
+    run.try_rule(r11_4, model)
+    run.try_rule(r11_5, model)
     run.assume("documented precedence order is the one in the property statement (constant oracle)")
